@@ -64,6 +64,11 @@ def r1(run):
                     for cap in cb.captures:
                         if cap["name"].endswith("id") and "self" in cap["name"]:
                             cmp_self = True
+                        elif cap["name"] == "self" and any(y[0] == "field" and y[2] == "id" and any(z[0] == "field" and z[1] == ("env",) and z[2] == "self" for z in walk(y))
+                                                           for a_ in c.arg_exprs() for y in walk(a_)):
+                            # the closure sits in a predicate method of the handler (`fn is_own_output(&self, ..)`): it captured
+                            # `self` whole and compares with `self.id`
+                            cmp_self = True
                         else:
                             po = capture_origin(run, cb, cap["name"])
                             if po is not None and any(y[0] == "field" and y[2] == "id" and any(z[0] == "field" and z[1][0] == "env" and z[2] == "self" for z in walk(y)) for y in walk(po[1])):
